@@ -1,1 +1,2 @@
 import Mutiny.Model.Ring
+import Mutiny.Model.LockRing
